@@ -144,7 +144,8 @@ def build(I, sort, hint):
         n = I.fresh(INT, hint + '_n')
         I.p.assume(n.t >= 0)
         es = z3.IntSort() if sort.elem == 'dt' else sort_of(sort.elem)
-        return SArr(z3.Const(I.p.fresh_name(hint), z3.ArraySort(z3.IntSort(), es)), n, sort.elem)
+        a2 = z3.Const(I.p.fresh_name(hint + '_s'), z3.ArraySort(z3.IntSort(), z3.IntSort())) if sort.elem == 'dt' else None
+        return SArr(z3.Const(I.p.fresh_name(hint), z3.ArraySort(z3.IntSort(), es)), n, sort.elem, a2)
     if isinstance(sort, RecList):
         n = I.fresh(INT, hint + '_n')
         I.p.assume(n.t >= 0)
@@ -171,3 +172,76 @@ def build(I, sort, hint):
         o = Obj(None, {}, label=hint)
         return o
     raise Unsupported(f'sort {sort!r}')
+
+
+def conforms(I, sort, v):
+    """z3 Bool: value v lies in the sort (used as an implicit precondition when a contract is applied at a call site).
+    Raises Unsupported when the shape cannot be related."""
+    from . import lib
+    if isinstance(sort, Const):
+        e = lib.eq_term(I, v, sort.value) if not (sort.value is None) else None
+        if sort.value is None:
+            if isinstance(v, SOpt):
+                return v.isnone
+            return z3.BoolVal(v is None)
+        return e if not isinstance(e, bool) else z3.BoolVal(e)
+    if isinstance(sort, Opt):
+        if isinstance(v, SOpt):
+            return z3.Or(v.isnone, conforms(I, sort.inner, v.val))
+        if v is None or v is ABSENT:
+            return z3.BoolVal(True)
+        return conforms(I, sort.inner, v)
+    if isinstance(v, SOpt):
+        return z3.And(z3.Not(v.isnone), conforms(I, sort, v.val))
+    if isinstance(sort, (Int, Real)):
+        k = I.kind_of(v)
+        if k not in (INT, BOOL) and not (isinstance(sort, Real) and k == REAL):
+            return z3.BoolVal(False)
+        if isinstance(v, bool) or (isinstance(v, Sym) and v.kind == BOOL):
+            raise Unsupported('bool passed where the contract declares a number')
+        t = I.term(v)
+        cs = []
+        if sort.lo is not None:
+            cs.append(t >= sort.lo)
+        if sort.hi is not None:
+            cs.append(t <= sort.hi)
+        return z3.And(*cs) if cs else z3.BoolVal(True)
+    if isinstance(sort, Bool):
+        return z3.BoolVal(I.kind_of(v) == BOOL)
+    if isinstance(sort, Str):
+        return z3.BoolVal(I.kind_of(v) == STR)
+    if isinstance(sort, DateTime):
+        if not isinstance(v, SDateTime):
+            return z3.BoolVal(False)
+        from . import libdt
+        y = libdt.ymd(I, v)[0]
+        cs = [I.term(y) >= sort.lo_year, I.term(y) <= sort.hi_year]
+        if sort.midnight:
+            cs.append(I.term(v.sec) == 0)
+        return z3.And(*cs)
+    if isinstance(sort, Rec):
+        if not isinstance(v, Obj) or v.cls is None:
+            return z3.BoolVal(False)
+        want = I.repo.find(sort.ident)
+        if want not in I.repo.mro(v.cls):
+            return z3.BoolVal(False)
+        if sort.init is not None:
+            raise Unsupported('conformance to a constructor-built sort')
+        cs = []
+        for k, s2 in sort.fields.items():
+            if k not in v.fields:
+                if isinstance(s2, Opt) and s2.absent:
+                    continue
+                return z3.BoolVal(False)
+            cs.append(conforms(I, s2, v.fields[k]))
+        for k in v.fields:
+            if k not in sort.fields:
+                fv = v.fields[k]
+                if isinstance(fv, SOpt) and fv.absent:
+                    cs.append(fv.isnone)
+                else:
+                    return z3.BoolVal(False)
+        return z3.And(*cs) if cs else z3.BoolVal(True)
+    if isinstance(sort, Opaque):
+        return z3.BoolVal(True)
+    raise Unsupported(f'conformance to sort {type(sort).__name__}')
